@@ -4,6 +4,7 @@ import (
 	"fmt"
 	"go/ast"
 	"go/constant"
+	"go/token"
 	"go/types"
 	"regexp/syntax"
 	"sort"
@@ -184,7 +185,7 @@ func rulesC15(c *Ctx) {
 								continue
 							}
 							nSl++
-							if !sameText(sl.X, text) {
+							if !sameText(sl.X, text) && !backwardSplice(sl.X, text, bound) {
 								okAll = false
 							}
 							if !matchIndexOK(bound, 0) {
@@ -255,6 +256,67 @@ func matchIndexConst(v ssa.Value) int64 {
 		}
 	}
 	return -1
+}
+
+// backwardSplice: the sliced string is the searched text as rewritten by
+// earlier iterations of a loop that walks the matches from the last to the
+// first (a loop-carried string whose first value is the searched text, cut at
+// matches[n] with n counting down): the part in front of a match is never
+// touched before that match is cut, so its offsets still hold.
+func backwardSplice(sliced, text, bound ssa.Value) bool {
+	phi, ok := sliced.(*ssa.Phi)
+	if !ok {
+		return false
+	}
+	initial := false
+	for _, e := range phi.Edges {
+		if e == text {
+			initial = true
+		}
+	}
+	if !initial {
+		return false
+	}
+	// the index the match is taken at: matches[n]
+	var idx ssa.Value
+	var find func(v ssa.Value, d int)
+	find = func(v ssa.Value, d int) {
+		if d > 6 || idx != nil {
+			return
+		}
+		switch x := v.(type) {
+		case *ssa.UnOp:
+			find(x.X, d+1)
+		case *ssa.IndexAddr:
+			if _, isConst := x.Index.(*ssa.Const); !isConst {
+				idx = x.Index
+				return
+			}
+			find(x.X, d+1)
+		}
+	}
+	find(bound, 0)
+	ip, ok := idx.(*ssa.Phi)
+	if !ok {
+		return false
+	}
+	down := false
+	for _, e := range ip.Edges {
+		if bo, ok := e.(*ssa.BinOp); ok && bo.X == ssa.Value(ip) {
+			k, isC := bo.Y.(*ssa.Const)
+			if !isC || k.Value == nil {
+				return false
+			}
+			n, _ := constant.Int64Val(constant.ToInt(k.Value))
+			switch {
+			case bo.Op == token.SUB && n > 0, bo.Op == token.ADD && n < 0:
+				down = true
+			default:
+				return false
+			}
+		}
+	}
+	return down
 }
 
 // sameText: the sliced string is the searched string (same SSA value).
